@@ -1,3 +1,4 @@
+import GomlVerif.Model.PrattGrammar
 import GomlVerif.Lemmas.PrattParse
 import GomlVerif.Lemmas.PrattLower
 import GomlVerif.Lemmas.StrLitLemmas
@@ -235,3 +236,36 @@ example : LineOK ("    ".toList, "a\\nb \"q\"".toList) := by
 example : lowerMultiline "\\\\first\n      \\\\a\\nb".toList = some "first\na\\nb".toList := by decide
 
 end Goml.Props.C11
+
+/-! ## round 11: the Pratt model and the grammar model (`Model/PrattGrammar.lean`)
+
+`Model/Grammar.lean` holds `expr_bp`, `atom`, `arg_list`, `arg` as data and is tied event for event to `Parser.events`;
+`Model/Pratt.lean` is the model the theorems above are about. -/
+namespace Goml.PrattGrammar
+open Goml.Pratt Goml.Gen.BindingPower
+
+/-- **The two regenerated binding-power tables are the same table**: `Gen/BindingPower.lean` (`extract_binding_power`,
+functions on the enum `TK`) and `Gen/Grammar.lean` (`extract_grammar`, association lists on `TokenKind as u16`) agree on
+every operator, and neither has an operator the other lacks. -/
+theorem binding_power_tables_agree : tablesAgree = true := by decide +kernel
+
+/-- **`pratt_is_grammar`, for every token list of at most 4 tokens** over one token of each class the operator loop
+distinguishes (identifier, integer, `)`, `,`, `(`, `-`, `!`, `*`, `==`, `||`, `.`; 16 105 lists): whenever `Pratt.parseCst`
+accepts, the grammar model started at `expr` consumes every token, reports no error and emits exactly the item tree of that
+`Cst` (`EXPR_IDENT(PATH)`, `EXPR_INT`, `EXPR_PAREN`, `EXPR_PREFIX`, `EXPR_BINARY`/`EXPR_CALL` opened by `precede` on the left
+operand, `ARG_LIST`/`ARG`), up to the trailing `,` of a last argument, which a `Cst` does not record.
+*Bounded*: the statement for ALL token lists is not proved — see `pratt_is_grammar_needs_fuel_bound` for why it must
+carry a nesting bound, and DESIGN.md for the missing simulation lemma. The same predicate `agrees` is evaluated on every
+tree of the C11 streams at run time (`pratt_vs_grammar_model` in the evidence). -/
+theorem pratt_is_grammar_upto4 : (listsUpTo alphabet 4).all agrees = true := by decide +kernel
+
+/-- **The unbounded statement is false**: `( - … - x )` with 260 prefix operators is accepted by `Pratt.parseCst`, but the
+grammar model — like the real parser, whose events it reproduces — has spent its 256 looks of fuel while returning through
+the nested `expr_bp` frames, answers `eof` to `p.expect(')')` and reports an error. Any general `pratt_is_grammar` needs a
+bound on the nesting depth (≈ 250). -/
+theorem pratt_is_grammar_needs_fuel_bound :
+    (parseCst ([.op .LParen] ++ List.replicate 260 (.op .Minus) ++ [.ident "x", .rparen])).isSome = true ∧
+      agrees ([.op .LParen] ++ List.replicate 260 (.op .Minus) ++ [.ident "x", .rparen]) = false := by
+  decide +kernel
+
+end Goml.PrattGrammar
